@@ -22,6 +22,13 @@ pub fn print_impl_wire_size<W: std::fmt::Write, T: FromTemplate>(
                                 r#" pad_length(self.{}.wire_size()) +"#,
                                 SafeName(&f.field_name)
                             )?;
+
+                            // A variable length opaque<> is prefixed with its
+                            // length on the wire, a fixed length opaque[N] is
+                            // not.
+                            if let ArrayType::VariableSize(..) = f.field_value {
+                                writeln!(w, "4 +")?;
+                            }
                         }
                     }
 
